@@ -474,6 +474,26 @@ def run_self_referential(chk, F):
     chk.expect_count('E1d-self-referential', 'members holding iterators into a sibling container', n_fields, 2)
 
 
+def run_assertions(chk, F):
+    """E6b-assert-pure for every class of the two families that C09 does not cover: the conditions of GUDHI_CHECK /
+    assert call no non-const member function and write nothing (debug and release builds behave alike)."""
+    from rules import c09
+    by = {}
+    seen = set()
+    for f in F.functions:
+        if f.get('inst') not in (0, 2) or f.get('body') is None or f.get('unit') in ('mx_inst', 'mx_cls'):
+            continue
+        c = f.get('cls') or f.get('friendof')
+        if not c or any(g in f['file'] for g in c09.GENERAL_FILES):
+            continue
+        key = (f['file'], f['line'], f['name'])
+        if key in seen:
+            continue
+        seen.add(key)
+        by.setdefault(c, []).append(f)
+    c09.run_assert_purity(chk, F, by=by, min_count=40)
+
+
 def run_moved_from_cache(chk, F):
     """E1b-cache: "a moved-from object is empty and usable again": a cache member (tables/c15.json, kind `cache`) of
     the source is left empty by a move. Moving the container out (`f = std::move(src.f)`, `std::exchange`) or clearing
@@ -607,6 +627,7 @@ def run(tier, replay=None):
     run_static_state(chk, F)
     run_nullness(chk, F)
     run_self_referential(chk, F)
+    run_assertions(chk, F)
     run_moved_from_cache(chk, F)
     run_settings_forwarding(chk, F)
     run_settings_alias(chk, F)
